@@ -14,6 +14,7 @@ import re
 
 from .. import common
 
+OWN_HISTORY = True   # after the pristine copy was forked
 RULE = (
     "all strings up to the length bound over a 22-character PVL-significant "
     "alphabet (exhaustive), concatenations of borderline atoms, random longer "
@@ -336,6 +337,10 @@ def shard(i, n, tier, seed, rec, hb):
     # forked before this worker has classified anything: what a string is must
     # not depend on what any dialect was asked before
     pristine = common.Pristine(lambda s: observe_all(pvl, triples(pvl), s))
+    # (the pristine copy exists now; this worker itself may have a past)
+    from .. import prelude
+    rec.count("workers_with_a_hostile_history"
+              if prelude.hostile_history(pvl, i) else "workers_starting_fresh")
     try:
         _shard(i, n, tier, seed, rec, hb, pvl, T, pristine)
     finally:
